@@ -123,6 +123,10 @@ TABLE.update({
     "c01_mixed_signals_use_right_type.diff": ("contracts.c14b", "_check_signal_type_compatibility", None),
     "c01_comparison_result_prefers_right.diff": ("contracts.c14b", "infer_binary_op_type", None),
     "c01_logical_result_not_comparison.diff": ("contracts.c14b", "infer_binary_op_type", None),
+    "c06_inlined_entity_not_reader.diff": ("contracts.c06", "_place_entity_prop_write", "enable; no bundle"),
+    "c06_signal_write_not_reader.diff": ("contracts.c06", "_place_entity_prop_write", "recipe; no bundle"),
+    "c06_inline_for_any_property.diff": ("contracts.c06", "_place_entity_prop_write", "recipe; no bundle"),
+    "c06_bundle_condition_constant_dropped.diff": ("contracts.c06", "_place_entity_prop_write", "enable; bundle condition"),
     "c08_preserved_shares_network_zero.diff": ("contracts.c12", "_restore_preserved_connection", None),
     "c08_preserved_routing_failure_ignored.diff": ("contracts.c12", "_restore_preserved_connection", None),
     "c08_preserved_span_doubled.diff": ("contracts.c12", "_restore_preserved_connection", None),
